@@ -557,7 +557,13 @@ func (q *checker) bcheckAssignment(lhs *a.Expr, op t.ID, rhs *a.Expr) error {
 
 		} else if lhs.MType().IsNumType() {
 			// After "x = f(x)", it is not generally true that "x == f(x)".
-			if !rhs.Mentions(lhs) {
+			// Likewise after "a[i] = f(b[j])" when a[i] and b[j] might be the
+			// same element.
+			if rhs.Mentions(lhs) {
+				// No-op.
+			} else if container, _, ok := lhs.IsIndex(); ok && mentionsPossiblyAliasedElement(rhs, container) {
+				// No-op.
+			} else {
 				q.facts.appendBinaryOpFact(t.IDXBinaryEqEq, lhs, rhs)
 			}
 
